@@ -386,6 +386,11 @@ pub fn execute(
     exec_alloc::reset_slots();
     exec_core::reset_slots();
     world::set_world(Some(w));
+    let ticks0 = match env.krate {
+        Krate::Std => exec_std::ticks(),
+        Krate::Alloc => exec_alloc::ticks(),
+        Krate::Core => exec_core::ticks(),
+    };
     install_hooks_for(env.krate);
     set_tick_seams_for(if env.tick_preempt > 0 && mode == RtMode::Shuttle { Some(env.krate) } else { None });
 
@@ -429,6 +434,12 @@ pub fn execute(
     let w: Box<World> = unsafe { Box::from_raw(w_raw) };
     let mut st = w.stats.into_inner().unwrap();
     st.episodes = 1;
+    st.ticks = match env.krate {
+        Krate::Std => exec_std::ticks(),
+        Krate::Alloc => exec_alloc::ticks(),
+        Krate::Core => exec_core::ticks(),
+    }
+    .wrapping_sub(ticks0);
     st.episodes_by_cpu[env.cpu as usize] += 1;
     st.episodes_by_krate[env.krate as usize] += 1;
     st.episodes_by_dispatch[match env.dispatch {
@@ -476,6 +487,8 @@ pub struct FamilyOutcome {
     pub choices: Vec<Vec<u32>>,
     pub signature: u64,
     pub nontrivial: bool,
+    /// seam-level trace (task, site, slot, value class) of the last variant
+    pub trace: u64,
 }
 
 /// Runs every variant of a family and compares their result logs.
@@ -559,6 +572,7 @@ pub fn run_family(fam: &Family, stats: &mut Stats) -> FamilyOutcome {
         choices: outs.iter().map(|o| o.choices.clone()).collect(),
         signature: h.finish(),
         nontrivial,
+        trace: outs.last().map_or(0, |o| o.trace_hash),
     }
 }
 
@@ -677,6 +691,7 @@ fn cmd_run(args: &[String]) -> i32 {
     let mut rep = RunReport { prop: prop.to_string(), seed, from, to, ..Default::default() };
     let mut sigs: std::collections::HashSet<u64> = std::collections::HashSet::new();
     let mut nontrivial_sigs: std::collections::HashSet<u64> = std::collections::HashSet::new();
+    let mut traces: std::collections::HashSet<u64> = std::collections::HashSet::new();
     let mut code = 0;
     for index in from..to {
         let fam = gen::generate(profile, seed, index, tgt);
@@ -708,6 +723,9 @@ fn cmd_run(args: &[String]) -> i32 {
         }
         rep.families += 1;
         rep.executions += fam.variants.len() as u64;
+        if (traces.len() as u64) < sig_cap {
+            traces.insert(fo.trace);
+        }
         if (sigs.len() as u64) < sig_cap {
             sigs.insert(fo.signature);
             if fo.nontrivial {
@@ -762,6 +780,7 @@ fn cmd_run(args: &[String]) -> i32 {
         }
         let _ = std::fs::write(format!("{}.sigs", out), bytes);
     }
+    rep.distinct_traces = traces.len() as u64;
     rep.distinct_signatures = sigs.len() as u64;
     rep.nontrivial_signatures = nontrivial_sigs.len() as u64;
     rep.cost = COST.lock().unwrap().clone();
